@@ -80,7 +80,7 @@ class C44(core.Check):
     PROPS = 'props/C44.v'
     MODEL_IMPORTS = ['model.Clock', 'model.Environ']
     QUICK_CASES = 1500
-    THOROUGH_CASES = 20000
+    THOROUGH_CASES = 8000
     TRUSTED = ['host clock contract: datetime.now()+offset is a valid datetime and datetime arithmetic is linear in '
                'microseconds (model/Clock.v works on integer microseconds since 0001-01-01)',
                'Python int(bytes) grammar and datetime constructor ranges modelled by hand (py_int, mk_datetime), tied by correspondence',
